@@ -39,12 +39,36 @@ func (t *Trans) descSort(d arrDesc) string {
 
 type effects struct {
 	arrs  map[string]arrDesc
+	dirty map[string]bool // arrays possibly written at objects that existed at function entry
 	all   bool
 	trace bool
 	alloc bool
 }
 
-func newEffects() *effects { return &effects{arrs: map[string]arrDesc{}} }
+func newEffects() *effects { return &effects{arrs: map[string]arrDesc{}, dirty: map[string]bool{}} }
+
+// rootedFresh: the address is inside an object allocated by this very function activation.
+func rootedFresh(addr ssa.Value) bool {
+	switch a := addr.(type) {
+	case *ssa.Alloc:
+		return true
+	case *ssa.FieldAddr:
+		return rootedFresh(a.X)
+	case *ssa.IndexAddr:
+		switch x := a.X.(type) {
+		case *ssa.Alloc:
+			return true
+		case *ssa.MakeSlice:
+			return true
+		case *ssa.Slice:
+			if al, ok := x.X.(*ssa.Alloc); ok {
+				_ = al
+				return true
+			}
+		}
+	}
+	return false
+}
 
 func (e *effects) merge(o *effects) bool {
 	ch := false
@@ -65,6 +89,8 @@ func (e *effects) merge(o *effects) bool {
 			e.arrs[k] = v
 			ch = true
 		}
+		// effects of callees are never known to be confined to fresh objects
+		e.dirty[k] = true
 	}
 	return ch
 }
@@ -166,9 +192,25 @@ func (f *frame) localName(a *ssa.Alloc) string {
 func directEffects(in ssa.Instruction, e *effects, localName func(a *ssa.Alloc) string) {
 	switch x := in.(type) {
 	case *ssa.Store:
-		staticStoreTargets(x.Addr, e, localName)
+		if rootedFresh(x.Addr) {
+			staticStoreTargets(x.Addr, e, localName)
+		} else {
+			tmp := newEffects()
+			staticStoreTargets(x.Addr, tmp, localName)
+			for k, v := range tmp.arrs {
+				e.arrs[k] = v
+				e.dirty[k] = true
+			}
+			if tmp.all {
+				e.all = true
+			}
+		}
 	case *ssa.MapUpdate:
-		e.addMap(x.Map.Type().Underlying().(*types.Map))
+		mt := x.Map.Type().Underlying().(*types.Map)
+		e.addMap(mt)
+		if _, fresh := x.Map.(*ssa.MakeMap); !fresh {
+			e.dirty[mapPArr(mt)], e.dirty[mapVArr(mt)] = true, true
+		}
 	case *ssa.Alloc:
 		e.alloc = true
 		staticStoreTargets(x, e, localName)
@@ -193,14 +235,17 @@ func builtinEffects(name string, c *ssa.CallCommon, e *effects) {
 	case "append":
 		el := c.Args[0].Type().Underlying().(*types.Slice).Elem()
 		e.arrs[elemArr(el)] = arrDesc{'E', el}
+		e.dirty[elemArr(el)] = true
 		e.alloc = true
 	case "copy":
 		if sl, ok := c.Args[0].Type().Underlying().(*types.Slice); ok {
 			e.arrs[elemArr(sl.Elem())] = arrDesc{'E', sl.Elem()}
+			e.dirty[elemArr(sl.Elem())] = true
 		}
 	case "delete", "clear":
 		if mt, ok := c.Args[0].Type().Underlying().(*types.Map); ok {
 			e.addMap(mt)
+			e.dirty[mapPArr(mt)], e.dirty[mapVArr(mt)] = true, true
 		} else {
 			e.all = true
 		}
@@ -250,6 +295,7 @@ func (t *Trans) contractEffects(plan callPlan, e *effects) {
 		}
 		for k, v := range arrs {
 			e.arrs[k] = v
+			e.dirty[k] = true
 		}
 	}
 }
